@@ -139,7 +139,8 @@ def run(ctx):
         for e in envs:
             for s in gp.splitter_only:
                 if rnd.random() < 0.5:
-                    e[s] = rnd.choice(SPLITTER_VALUES)
+                    # (a str with a lone surrogate has no UTF-8 encoding: such a call raises - the same error every time)
+                    e[s] = rnd.choice(SPLITTER_VALUES + ["\udc80", "a\ud83d", "\udc00\ud800 x"])
         # families of values that compare equal but print differently (1 / 1.0 / True ...): a cache keyed on equality
         # would make the first spelling seen decide for the others, i.e. the answer would depend on the call history
         if gp.splitter_only and envs:
